@@ -82,6 +82,10 @@ type fakeInst struct {
 
 	// gate: while gated, every non-weak AddReference call blocks until the
 	// script releases it (the call is "in flight" inside the directive instance)
+	// fault injection: the next nilNext non-weak AddReference calls return nil
+	nilNext     atomic.Int32
+	nilReturned atomic.Int32
+
 	gated     atomic.Bool
 	gmtx      sync.Mutex
 	waiting   []chan struct{}
@@ -129,6 +133,11 @@ func (f *fakeInst) AddReference(cb directive.ReferenceHandler, weak bool) direct
 		<-ch
 		f.inFlight.Add(-1)
 	}
+	if f.nilNext.Load() > 0 {
+		f.nilNext.Add(-1)
+		f.nilReturned.Add(1)
+		return nil
+	}
 	if f.disposedFlag.Load() {
 		f.acqDisposed.Add(1)
 	}
@@ -170,6 +179,7 @@ const (
 	aDisposed
 	aYield
 	aMark
+	aSetNil
 )
 
 type act struct {
@@ -191,6 +201,8 @@ func (a act) String() string {
 		return "Disposed"
 	case aMark:
 		return "|gate|"
+	case aSetNil:
+		return fmt.Sprintf("NextAddReferenceReturnsNil(%d)", a.id)
 	}
 	return "Yield"
 }
@@ -209,6 +221,8 @@ func (a act) coq() string {
 		return "Do Disposed"
 	case aMark:
 		return "Mark"
+	case aSetNil:
+		return fmt.Sprintf("Do (SetNil %d)", a.id)
 	}
 	return "Yield"
 }
@@ -271,6 +285,8 @@ func (e *env) apply(a act, base int) {
 		e.h.HandleValueAdded(e.inst, directive.NewAttachedValue(99, &notALink{1}))
 	case aRemovedOther:
 		e.h.HandleValueRemoved(e.inst, directive.NewAttachedValue(99, &notALink{1}))
+	case aSetNil:
+		e.inst.nilNext.Store(int32(a.id))
 	case aDisposed:
 		e.inst.disposedFlag.Store(true)
 		e.h.HandleInstanceDisposed(e.inst)
@@ -376,7 +392,8 @@ func emit(c *hx.Ctx, acts []act, class string) {
 				if len(present) > 0 && !disposed {
 					want = 1
 				}
-				if live != want {
+				// a nil reference (fault injection) may leave the request unheld; never over-held
+				if live != want && !(live < want && e.inst.nilReturned.Load() > 0) {
 					key := "strong-ref-without-links"
 					if live < want {
 						key = "no-strong-ref-while-links-exist"
@@ -649,6 +666,17 @@ func c33(c *hx.Ctx) {
 	for _, a := range fixed {
 		emit(c, a, "fixed")
 	}
+	// fault injection: AddReference(nil, false) returns nil
+	nilref := [][]act{
+		{{aSetNil, 1}, {aAdded, 1}, {kind: aYield}, {aAdded, 2}, {kind: aYield}, {aRemoved, 1}, {aRemoved, 2}, {kind: aYield}},
+		{{aSetNil, 1}, {aAdded, 1}, {aAdded, 2}, {kind: aYield}, {aRemoved, 1}, {aRemoved, 2}, {kind: aYield}},
+		{{aSetNil, 2}, {aAdded, 1}, {aAdded, 2}, {kind: aYield}, {aAdded, 3}, {kind: aYield}, {kind: aDisposed}, {kind: aYield}},
+		{{aAdded, 1}, {kind: aYield}, {aRemoved, 1}, {aSetNil, 1}, {aAdded, 1}, {kind: aYield}, {aRemoved, 1}, {kind: aYield}},
+		{{aSetNil, 3}, {aAdded, 1}, {aRemoved, 1}, {aAdded, 1}, {kind: aYield}, {aAdded, 2}, {kind: aYield}, {aRemoved, 1}, {aRemoved, 2}, {kind: aYield}},
+	}
+	for _, a := range nilref {
+		emit(c, a, "nil-reference")
+	}
 	// AddReference calls held in flight: overlapping acquisitions
 	maxWin := 2
 	if thorough {
@@ -734,6 +762,11 @@ func c33(c *hx.Ctx) {
 		cl := "random"
 		if malformed {
 			cl = "random-malformed"
+		} else if c.Rng.Intn(8) == 0 {
+			// fault injection at a random position
+			k := c.Rng.Intn(len(a))
+			a = append(append(append([]act{}, a[:k]...), act{aSetNil, 1 + c.Rng.Intn(2)}), a[k:]...)
+			cl = "random-nil-reference"
 		}
 		emit(c, a, cl)
 	}
